@@ -44,9 +44,9 @@ PROPS = {
         ],
         'standins': [
             {'fn': 'per-operator round trip', 'argv': ['op'], 'bound': '537 operators, each in a skeleton module with operands found by validator search: the re-emitted body equals the input body up to renumbering', 'why': 'A-sem / whole-body order'},
-            {'fn': 'control-flow round trip', 'argv': ['cf', '4', '3'], 'bound': 'all block/loop/if/br/br_if/br_table/return/unreachable shapes with budget 4 and depth 3: reachability-normalised operator sequence equal', 'why': 'dfs_in_order and dead-code elision are outside Verus'},
+            {'fn': 'control-flow round trip', 'argv': ['cf', '4', '3'], 'argv_thorough': ['cf', '5', '3'], 'bound_thorough': 'budget 5, depth 3 (2.4 million programs)', 'bound': 'all block/loop/if/br/br_if/br_table/return/unreachable shapes with budget 4 and depth 3: reachability-normalised operator sequence equal', 'why': 'dfs_in_order and dead-code elision are outside Verus'},
             {'fn': 'entities round trip', 'argv': ['entities'], 'bound': '18 modules covering every entity kind and attribute: canonical description of input and output equal', 'why': 'data / element / start emitters not under contract'},
-            {'fn': 'local numbering / builder trees', 'argv': ['builder', '60'], 'bound': '65 trees x 6 construction orders (see C15)', 'why': 'emit_locals / branch_target'},
+            {'fn': 'local numbering / builder trees', 'argv': ['builder', '60'], 'argv_thorough': ['builder', '2500'], 'bound_thorough': '2505 trees x 6 construction orders', 'bound': '65 trees x 6 construction orders (see C15)', 'why': 'emit_locals / branch_target'},
         ],
     },
     'C02': {
@@ -66,7 +66,7 @@ PROPS = {
         'standins': [
             {'fn': 'emit after parse / gc validates', 'argv': ['gc'], 'bound': '40 modules x {gc+emit, twice, re-parse}: no panic, output validates (see C06)', 'why': 'validity is the validator\'s judgement'},
             {'fn': 'emit after parse validates (all entity kinds)', 'argv': ['features'], 'bound': '55 modules x {emit, gc+emit}: output validates under the full and the minimal feature set (see C20)', 'why': 'as above'},
-            {'fn': 'emit after builder edits', 'argv': ['builder', '60'], 'bound': '65 built trees x 6 orders: emit does not panic, output validates', 'why': 'as above'},
+            {'fn': 'emit after builder edits', 'argv': ['builder', '60'], 'argv_thorough': ['builder', '2500'], 'bound_thorough': '2505 trees x 6 construction orders', 'bound': '65 built trees x 6 orders: emit does not panic, output validates', 'why': 'as above'},
             {'fn': 'emit after replace_* edits', 'argv': ['replace'], 'bound': '19 edits: emit does not panic, output validates', 'why': 'as above'},
             {'fn': 'emit with a name section for every entity kind', 'argv': ['names'], 'bound': '5 modules x {emit, gc+emit}: no panic (names of data / element segments, locals, imported entities resolve to emitted indices)', 'why': 'as above'},
             {'fn': 'emit with names / customs / configurations', 'argv': ['config'], 'bound': '96 configuration cases (see C14)', 'why': 'as above'},
@@ -88,7 +88,7 @@ PROPS = {
             'that the validator is sound and complete for the WebAssembly spec (A-deps)',
         ],
         'standins': [
-            {'fn': 'Module::parse as a gate, end to end', 'argv': ['gate'],
+            {'fn': 'Module::parse as a gate, end to end', 'argv': ['gate'], 'argv_thorough': ['gate', '100000'], 'bound_thorough': 'every truncation and 6 mutations of every byte of every corpus module',
              'bound': '62 corpus modules (every supported proposal incl. multi-memory, memory64 with i64 global offsets, threads, tail calls, simd) and, for each, every truncation of the first/last 400 bytes and 6 single-byte mutations of each of the first 400 bytes (~10^5 byte strings) x {default, only_stable_features}: walrus accepts exactly what an independent wasmparser Validator with the same feature set accepts, and never panics; tag section / tag import / unknown section id / component header are rejected with an error; only_stable_features rejects exactly the multi-memory, memory64 and threads modules; 1 000 / 20 000 / 200 000 nested blocks give a verdict (no stack overflow)',
              'why': 'whole-module composition, recursion depth and completeness are not contract-expressible per function'},
         ],
@@ -188,7 +188,7 @@ PROPS = {
             'emission of the built tree (dfs_in_order + Emit: unit C proves the per-instruction and block open/close steps for parsed and built functions alike, C03), branch depth computation (branch_target: iterator chain) and local slot assignment (emit_locals, unit G): bounded stand-in only',
         ],
         'standins': [
-            {'fn': 'builder -> emit end to end', 'argv': ['builder'],
+            {'fn': 'builder -> emit end to end', 'argv': ['builder'], 'argv_thorough': ['builder', '2500'], 'bound_thorough': '2505 trees x 6 construction orders',
              'bound': '155 instruction trees (5 hand-written shapes: a dangling sequence attached twice with a branch to itself, parameters allocated in reverse id order, unused locals between used ones, branches to every enclosing depth, loops first in a sequence; 150 pseudo-random trees of depth <= 3) x 5 construction orders (closure constructors; append; instr_at(0) in reverse; middle insertion; dangling-first): the decoded body equals an independent in-order flattening, parameters at their positions, one distinct declared slot per used local, unused locals not declared',
              'why': 'dfs_in_order (while-let + labelled continue) and branch_target / emit_locals (iterator chains, hash maps) are outside Verus'},
         ],
@@ -364,7 +364,7 @@ PROPS = {
             {'fn': 'dfs_in_order / dfs_pre_order_mut (src/ir/traversals.rs) with a recording visitor, operand counts', 'argv': ['visit'],
              'bound': 'one module per accepted operator sample (3 immediates each, ~640 modules): reported entity events by kind == entity operands of the decoded input body, for both traversals',
              'why': 'drivers use while-let, labelled continue and iterator adapters (outside Verus)'},
-            {'fn': 'dfs_in_order event trace (order, start/end nesting, exactly once)', 'argv': ['visit-cf', '4', '3'],
+            {'fn': 'dfs_in_order event trace (order, start/end nesting, exactly once)', 'argv': ['visit-cf', '4', '3'], 'argv_thorough': ['visit-cf', '5', '3'], 'bound_thorough': 'budget 5, depth 3 (2.4 million programs)',
              'bound': 'all 89021 control-flow programs with <= 4 nodes and nesting <= 3: trace == in-order flattening of the body; mutable traversal visits the same number of instructions',
              'why': 'same'},
             {'fn': 'dfs_in_order / dfs_pre_order_mut call-stack use', 'argv': ['visit-deep', '100000'],
@@ -404,7 +404,7 @@ PROPS = {
             'iteration order of iter()/par_iter() relies on A-iter (filter adapter over id_arena ascending order); only the predicate is verified',
         ],
         'standins': [
-            {'fn': 'IterMut::next (src/tombstone_arena.rs) and the collections built on the arenas', 'argv': ['arena', '5'],
+            {'fn': 'IterMut::next (src/tombstone_arena.rs) and the collections built on the arenas', 'argv': ['arena', '5'], 'argv_thorough': ['arena', '6'], 'bound_thorough': 'all histories of length 6',
              'bound': 'all 8^5 histories of add/delete/name on ModuleTypes and all 5^7 histories of add/delete on globals+exports, every observation (get, iter, iter_mut, find) checked after every step against a reference model',
              'why': 'Verus limitation (if-guard inside loop with return)'},
         ],
